@@ -1,5 +1,6 @@
 import CantoVerif.Spec.Epochs
 import CantoVerif.Proofs.InflationBlock
+import CantoVerif.Proofs.InflationMonitors
 /-!
 # C05 — inflation mints exactly the epoch provision and distributes all of it.
 
@@ -59,6 +60,21 @@ def mintedOf (s : Infl) : Nat := s.provision / S18
 /-- `⌊minted · stakingRewards⌋` -/
 def stakingOf (s : Infl) : Nat := mintedOf s * s.params.stakingRewards / S18
 
+theorem community_rest_of_alloc {b b' : Bank} {pl pl' : AMap Denom} {md : Denom} {mi st : Nat}
+    (A : AllocFacts env b pl md mi st b' pl') (hle : st ≤ mi) (d : Denom) :
+    b'.get env.distr d = b.get env.distr d + (b.get env.infl d + (if d = md then mi - st else 0)) ∧
+    pl'.get d = pl.get d + (b.get env.infl d + (if d = md then mi - st else 0)) * S18 := by
+  have h1 := A.distr d
+  have h2 := A.pool d
+  by_cases hd : d = md
+  · simp only [hd, if_true] at h1 h2 ⊢
+    refine ⟨by omega, ?_⟩
+    have : b.get env.infl md + mi = b.get env.infl md + (mi - st) + st := by omega
+    rw [this, Nat.add_mul] at h2
+    omega
+  · simp only [hd, if_false, Nat.add_zero, Nat.zero_mul] at h1 h2 ⊢
+    exact ⟨h1, h2⟩
+
 /-- **community_rest**: everything else goes to the community pool — the distribution account and the
 `FeePool.CommunityPool` record both grow by `(minted − staking)` of the mint denomination plus *every*
 balance the inflation account held before, in every denomination. -/
@@ -72,20 +88,7 @@ theorem community_rest (hE : EnvOK env) {s s' : Infl} {id : String} {n : Int} (h
   · rw [hen] at h1; cases h1
   · rw [hen] at h1; cases h1
   · exact absurd hid h2
-  · have hle : stakingOf s ≤ mintedOf s := staking_le_minted _ _ hv
-    have h1 := M.alloc.distr d
-    have h2 := M.alloc.pool d
-    unfold stakingOf mintedOf at *
-    generalize s.provision / S18 * s.params.stakingRewards / S18 = st at *
-    generalize s.provision / S18 = mi at *
-    by_cases hd : d = s.params.mintDenom
-    · simp only [hd, if_true] at h1 h2 ⊢
-      refine ⟨by omega, ?_⟩
-      have : s.bank.get env.infl s.params.mintDenom + mi = s.bank.get env.infl s.params.mintDenom + (mi - st) + st := by omega
-      rw [this, Nat.add_mul] at h2
-      omega
-    · simp only [hd, if_false, Nat.add_zero, Nat.zero_mul] at h1 h2 ⊢
-      exact ⟨h1, h2⟩
+  · exact community_rest_of_alloc M.alloc (staking_le_minted _ _ hv) d
 
 /-- **module_empty**: after a minting epoch the inflation account holds nothing, in any denomination. -/
 theorem module_empty (hE : EnvOK env) {s s' : Infl} {id : String} {n : Int} (h : afterEpochEnd env s id n = .ok s')
@@ -310,6 +313,100 @@ theorem ghost_counts (hE : EnvOK env) {s s' : State} {now h : Int} {r : Resp}
       · rw [hen] at h1; cases h1
       · rw [hen] at h1; cases h1
     · rw [heff]; exact ⟨rfl, rfl⟩
+
+/-! ## the monitors of `Spec/Epochs.lean` hold on every block transition of the model -/
+
+open Spec in
+/-- a block that leaves the ledger alone and is not a minting block satisfies the ledger monitors -/
+theorem quiet_block_monitors (t : Tr) (now h : Int) (hop : t.op = .block now h) (hm : minting t = false)
+    (hb : t.post.infl.bank = t.pre.infl.bank) :
+    c05_mint_exact t = true ∧ c05_staking_exact t = true ∧ c05_community_rest t = true ∧ c05_module_empty t = true ∧
+    c05_frame t = true := by
+  refine ⟨?_, ?_, ?_, ?_, ?_⟩
+  · simp only [c05_mint_exact, onBlock, hop, hm, hb, Bool.false_and, Bool.false_eq_true, if_false, Nat.add_zero, beq_self_eq_true,
+      List.all_eq_true, Bool.or_eq_true, implies_true, or_true]
+  · simp only [c05_staking_exact, onBlock, hop, hm, Bool.not_false, Bool.true_or, Bool.or_true]
+  · simp only [c05_community_rest, onBlock, hop, hm, Bool.not_false, Bool.true_or, Bool.or_true]
+  · simp only [c05_module_empty, onBlock, hop, hm, Bool.not_false, Bool.true_or, Bool.or_true]
+  · simp [c05_frame, onBlock, hop, hb]
+
+open Spec in
+/-- every C05 monitor evaluates to `true` on every successful block transition of the model (unique identifiers,
+distinct module accounts, staking share of the split at most 1) -/
+theorem c05_monitors_model (hE : EnvOK env) {s s' : State} {now h : Int} {log : List Call}
+    (hnd : (s.infos.map (·.id)).Nodup) (hv : s.infl.params.stakingRewards ≤ S18)
+    (hstep : step env s (.block now h) = .ok (s', .block log)) :
+    let t : Tr := { env := env, pre := s, op := .block now h, ok := true, resp := .block log, post := s', logKnown := true, negative := false }
+    c05_mint_exact t = true ∧ c05_staking_exact t = true ∧ c05_community_rest t = true ∧ c05_module_empty t = true ∧
+    c05_disabled_skip t = true ∧ c05_other_id_noop t = true ∧ c05_frame t = true ∧ c05_rejected_unchanged t = true := by
+  intro t
+  have hrej : c05_rejected_unchanged t = true := by simp [c05_rejected_unchanged, t]
+  rcases block_summary hE hnd hstep t rfl rfl with ⟨hen, htk, n, M⟩ | ⟨hen, htk, hsame⟩ | ⟨hen, htk, hskip⟩ | ⟨hen, htk, hsame⟩
+  · -- a minting block
+    have hmint : minting t = true := by simp only [minting, t]; rw [hen]; exact htk
+    have A := M.alloc
+    have hle : s.infl.provision / S18 * s.infl.params.stakingRewards / S18 ≤ s.infl.provision / S18 := staking_le_minted _ _ hv
+    refine ⟨?_, ?_, ?_, ?_, ?_, ?_, ?_, hrej⟩
+    · simp only [c05_mint_exact, onBlock, t, Bool.not_true, Bool.false_or, List.all_eq_true, beq_iff_eq]
+      intro d _
+      rw [A.supply d]
+      change _ = _ + (if (minting t && d == s.infl.params.mintDenom) = true then s.infl.provision / S18 else 0)
+      rw [hmint]
+      by_cases hd : d = s.infl.params.mintDenom <;> simp [hd]
+    · simp only [c05_staking_exact, onBlock, t, Bool.not_true, Bool.false_or, Bool.or_eq_true, List.all_eq_true, beq_iff_eq]
+      right
+      intro d _
+      rw [A.staking d]
+      rfl
+    · simp only [c05_community_rest, onBlock, t, Bool.not_true, Bool.false_or, Bool.or_eq_true, List.all_eq_true]
+      right
+      intro d _
+      obtain ⟨c1, c2⟩ := community_rest_of_alloc A hle d
+      simp only [stakingAmt, mintedAmt, Bool.and_eq_true, beq_iff_eq]
+      exact ⟨⟨decide_eq_true hle, c1⟩, c2⟩
+    · simp only [c05_module_empty, onBlock, t, Bool.not_true, Bool.false_or, Bool.or_eq_true, List.all_eq_true, beq_iff_eq]
+      right
+      intro d _
+      exact A.empty d
+    · simp [c05_disabled_skip, onBlock, t, hen]
+    · simp only [c05_other_id_noop, onBlock, t, Bool.not_true, Bool.false_or, Bool.or_eq_true, Bool.and_eq_true, beq_iff_eq]
+      right
+      exact ⟨M.skipped, Or.inl hmint⟩
+    · simp only [c05_frame, onBlock, t, Bool.not_true, Bool.false_or, List.all_eq_true, Bool.or_eq_true, beq_iff_eq]
+      intro k _
+      by_cases h1 : k.1 = env.infl
+      · exact Or.inl (Or.inl (Or.inl h1))
+      · by_cases h2 : k.1 = env.feeCollector
+        · exact Or.inl (Or.inl (Or.inr h2))
+        · by_cases h3 : k.1 = env.distr
+          · exact Or.inl (Or.inr h3)
+          · exact Or.inr (A.other k.1 k.2 h1 h2 h3).symm
+  · -- enabled, the configured identifier did not tick
+    have hmint : minting t = false := by simp only [minting, t]; rw [hen]; exact htk
+    obtain ⟨q1, q2, q3, q4, q5⟩ := quiet_block_monitors t now h rfl hmint (by show s'.infl.bank = _; rw [hsame])
+    refine ⟨q1, q2, q3, q4, ?_, ?_, q5, hrej⟩
+    · simp [c05_disabled_skip, onBlock, t, hen]
+    · simp only [c05_other_id_noop, onBlock, t, Bool.not_true, Bool.false_or, Bool.or_eq_true, Bool.and_eq_true, beq_iff_eq]
+      right
+      refine ⟨by rw [hsame], Or.inr ⟨⟨sameLedger_refl _ _ (by rw [hsame]) (by rw [hsame]), by rw [hsame]⟩, by rw [hsame]⟩⟩
+  · -- disabled, a daily epoch ended
+    have hmint : minting t = false := by simp only [minting, t]; rw [hen]; rfl
+    obtain ⟨q1, q2, q3, q4, q5⟩ := quiet_block_monitors t now h rfl hmint (by show s'.infl.bank = _; rw [hskip])
+    refine ⟨q1, q2, q3, q4, ?_, ?_, q5, hrej⟩
+    · simp only [c05_disabled_skip, onBlock, t, Bool.not_true, Bool.false_or, Bool.or_eq_true, Bool.and_eq_true, beq_iff_eq]
+      right
+      refine ⟨⟨⟨sameLedger_refl _ _ (by rw [hskip]) (by rw [hskip]), by rw [hskip]⟩, by rw [hskip]⟩, ?_⟩
+      rw [htk, hskip]; rfl
+    · simp [c05_other_id_noop, onBlock, t, hen]
+  · -- disabled, no daily epoch ended
+    have hmint : minting t = false := by simp only [minting, t]; rw [hen]; rfl
+    obtain ⟨q1, q2, q3, q4, q5⟩ := quiet_block_monitors t now h rfl hmint (by show s'.infl.bank = _; rw [hsame])
+    refine ⟨q1, q2, q3, q4, ?_, ?_, q5, hrej⟩
+    · simp only [c05_disabled_skip, onBlock, t, Bool.not_true, Bool.false_or, Bool.or_eq_true, Bool.and_eq_true, beq_iff_eq]
+      right
+      refine ⟨⟨⟨sameLedger_refl _ _ (by rw [hsame]) (by rw [hsame]), by rw [hsame]⟩, by rw [hsame]⟩, ?_⟩
+      rw [htk, hsame]; rfl
+    · simp [c05_other_id_noop, onBlock, t, hen]
 
 end Inflation
 end CV
